@@ -75,7 +75,8 @@ fn c19_clocktime_sub_f64_range() {
 	kani::cover!(x > 2.0 && t.ticks == 1, "w:saturate");
 }
 
-// @h prop=C19 tier=thorough kind=main timeout=1750
+// @h prop=C19 tier=experimental kind=main timeout=1750
+// @note no answer in 1750 s (two chained f64 additions compared with an independently rounded reference): NOT decided, never run; the quick tier decides c19_clocktime_sub_small_no_tick_error instead
 // @bounds ticks in [2^11, 2^20], fraction in [0,1), 0 <= x <= 2 (all f64 bit patterns in range, incl. denormals); "to rounding" = the result, read as ticks+fraction, is within 2^-40 ticks of the exact value
 // @funcs <ClockTime as Sub<f64>>::sub
 // @catches F14: borrow and fraction derived from differently rounded expressions (off by one whole tick)
@@ -105,7 +106,8 @@ fn kv_sub_consistent_body(xmax: f64, tmax: u64) {
 	kani::cover!(ok_up, "w:rounds-up-to-next-tick");
 }
 
-// @h prop=C19 tier=thorough kind=main timeout=1750
+// @h prop=C19 tier=experimental kind=main timeout=1750
+// @note no answer in 1750 s (two chained f64 additions compared with an independently rounded reference): NOT decided, never run; the quick tier decides c19_clocktime_sub_small_no_tick_error instead
 // @bounds ticks <= 2^20, fraction in [0,1), 0 <= x <= 2 (all f64 bit patterns in range); round trip (t + x) - x
 // @funcs <ClockTime as Add<f64>>::add, <ClockTime as Sub<f64>>::sub
 // @catches F14: (648, 1-2^-53) + 5.1e-15 - 5.1e-15 = (648, 0.0)
@@ -195,14 +197,16 @@ fn c19_clocktime_from_ticks() {
 	kani::cover!(t.fraction > 0.0 && t.ticks > 3, "w:fractional");
 }
 
-// @h prop=C19 tier=thorough kind=main timeout=1750
+// @h prop=C19 tier=experimental kind=main timeout=1750
+// @note no answer in 1750 s (two chained f64 additions compared with an independently rounded reference): NOT decided, never run; the quick tier decides c19_clocktime_sub_small_no_tick_error instead
 // @bounds ticks in [2^11, 2^40], fraction in [0,1), 0 <= x <= 1024
 // @funcs <ClockTime as Sub<f64>>::sub
 #[kani::proof]
 #[kani::unwind(3)]
 fn c19_clocktime_sub_f64_consistent_wide() { kv_sub_consistent_body(1024.0, 1u64 << 40); }
 
-// @h prop=C19 tier=thorough kind=main timeout=1750
+// @h prop=C19 tier=experimental kind=main timeout=1750
+// @note no answer in 1750 s (two chained f64 additions compared with an independently rounded reference): NOT decided, never run; the quick tier decides c19_clocktime_sub_small_no_tick_error instead
 // @bounds ticks <= 2^40, fraction in [0,1), 0 <= x <= 1024
 // @funcs <ClockTime as Add<f64>>::add, <ClockTime as Sub<f64>>::sub
 #[kani::proof]
